@@ -327,6 +327,7 @@ def step (E : Env) (k : OK ρ) (n : Nat) (i : Instr ρ) (s : St) (pos : Nat) : O
     match res with
     | none => .ok (none, s2)
     | some p => do
+      callGuard E s.depth v      -- s->depth at the call = depth on entry (down1 / up1 above are balanced)
       let cap ← replaceValue v s2 cs
       .ok (some p, pushcap E (capLoadKeept s2 cs) cap tag)
   | .matchtime r v tag => do
@@ -338,6 +339,7 @@ def step (E : Env) (k : OK ρ) (n : Nat) (i : Instr ρ) (s : St) (pos : Nat) : O
     match res with
     | none => .ok (none, s2)
     | some p => do
+      callGuard E s.depth v      -- s->depth at the call = depth on entry (down1 / up1 above are balanced)
       let cap ← replaceValue v s2 cs
       let s3 := capLoadKeept s2 cs
       if truthy cap then .ok (some p, pushcap E s3 cap tag) else .ok (none, s3)
